@@ -17,6 +17,7 @@ hypothesis (`Cors.RestOK`).
 import Restful.Lemmas.Cors
 import Restful.Lemmas.StateShape
 import Restful.Lemmas.TieCors
+import Restful.Lemmas.TieImpFilters
 namespace Restful
 namespace Props
 open Str Cors
@@ -383,3 +384,7 @@ end C08Example
 
 end Props
 end Restful
+
+-- the imperative functions this property's model rests on, tied to their statement-by-statement
+-- translation (tools/goimp, Gen/Imp.lean, regenerated on every run):
+-- also: Restful.TieImp.cors_filter
